@@ -349,6 +349,9 @@ type schedule struct {
 	run func(s *t2server, pc *cliPC, prefix []byte, ip1, ip2 string) (wantIP string, err error)
 }
 
+// scheduleWait: liveness bound of a session running the schedule of that name (default liveWait).
+var scheduleWait = map[string]time.Duration{}
+
 func mustDial(s *t2server, ip string, prefix []byte) (*carrier, error) {
 	return s.dialCarrier(ip, prefix)
 }
@@ -602,7 +605,7 @@ func runSessionAt(s *t2server, sc schedule, tag [8]byte, size int, ip1, ip2 stri
 	}()
 	select {
 	case <-done:
-	case <-time.After(liveWait):
+	case <-time.After(max(liveWait, scheduleWait[sc.name])):
 		res.timedOut = true
 		return res
 	}
@@ -835,6 +838,33 @@ func TestVerifEnumC05T2(t *testing.T) {
 		rot   int // which client addresses the sessions present (rotation of the list)
 	}
 	var scen []scenario
+	// a carrier-less gap of 45 s in the middle of a transfer (less than the one-minute retention): the session
+	// continues on the next carrier as the same connection.  On its own (not combined with the others): it
+	// takes a minute of real time.
+	scheduleWait["gap-45s-after-40"] = liveWait + 60*time.Second
+	longGap := schedule{"gap-45s-after-40", func(s *t2server, pc *cliPC, prefix []byte, ip1, ip2 string) (string, error) {
+		c, err := mustDial(s, ip1, prefix)
+		if err != nil {
+			return "", err
+		}
+		pc.attach(c)
+		pc.onSend = func(pc *cliPC, n int) {
+			if n == 40 {
+				pc.carriers[0].close()
+				go func() {
+					time.Sleep(45 * time.Second)
+					if c2, err := mustDial(s, ip1, prefix); err == nil {
+						pc.mu.Lock()
+						pc.attach(c2)
+						pc.mu.Unlock()
+					}
+				}()
+			}
+		}
+		return ip1, nil
+	}}
+	allScs := append(append([]schedule{}, scs...), longGap)
+	scen = append(scen, scenario{"1x" + longGap.name + "/200000", []int{len(scs)}, 200000, 0})
 	for i := range scs {
 		for _, sz := range sizes {
 			scen = append(scen, scenario{fmt.Sprintf("1x%s/%d", scs[i].name, sz), []int{i}, sz, i + len(scen)})
@@ -863,7 +893,7 @@ func TestVerifEnumC05T2(t *testing.T) {
 			go func() {
 				defer wg.Done()
 				ip := ips[(k+sc.rot)%len(ips)]
-				sessions[k] = runSession(s, scs[si], tag, sc.size, ip[0], ip[1])
+				sessions[k] = runSession(s, allScs[si], tag, sc.size, ip[0], ip[1])
 			}()
 		}
 		wg.Wait()
